@@ -109,9 +109,14 @@ func VH_C15_Cache() {
 	model := map[string]*vhC15Entry{"a": {}, "b": {}}
 	tag := ""
 	for step := 0; step < h; step++ {
-		op := symChoice(9)
+		op := symChoice(10)
 		n := names[symChoice(symParam("NAMES", 1))] // names touched by history operations
 		switch op {
+		case 9: // development mode: auto-reload on and cache off, or the reverse
+			dm := symBool()
+			e.SetDevelopmentMode(dm)
+			auto, cache = dm, !dm
+			tag += "D"
 		case 0:
 			cache = symBool()
 			e.SetCache(cache)
@@ -284,7 +289,12 @@ func VH_C15_Files() {
 	}
 	tag := ""
 	for step := 0; step < h; step++ {
-		switch symChoice(6) {
+		switch symChoice(7) {
+		case 6: // development mode
+			dm := symBool()
+			e.SetDevelopmentMode(dm)
+			auto, cache = dm, !dm
+			tag += "M"
 		case 0:
 			cache = symBool()
 			e.SetCache(cache)
